@@ -11,7 +11,7 @@ REPLAYS = os.path.join(VERIF, 'replays')
 EVID = os.path.join(VERIF, 'evidence')
 sys.path.insert(0, TOOLS)
 from cast import REPO, INC, write_if_changed
-import gen_byteorder, gen_tables, emit_coq, gen_harness, gen_align
+import gen_byteorder, gen_tables, emit_coq, gen_harness, gen_align, gen_headers
 
 NPROC = 16
 HARNESS_CFLAGS = ['-std=gnu99', '-O1', '-g', '-fsanitize=address,undefined', '-fno-sanitize-recover=all',
@@ -251,6 +251,11 @@ def prepare(force=False):
                 json.dump(ctx['align'], open(os.path.join(WORK, 'align.json'), 'w'))
             except Exception as e:
                 ctx['errors'].append('translator T3 (cast / static-storage inventory): %s' % e)
+            try:
+                ctx['headers'] = gen_headers.generate(gen)
+                json.dump(ctx['headers'], open(os.path.join(WORK, 'headers.json'), 'w'))
+            except Exception as e:
+                ctx['errors'].append('translator T4 (public headers): %s' % e)
             ctx['t_translate'] = round(time.time() - t0, 1)
             # --- Coq ---
             rc, out, dt = coq_build()
@@ -277,6 +282,7 @@ def prepare(force=False):
             json.dump(ctx, open(stamp, 'w'))
         ctx['model'] = json.load(open(os.path.join(WORK, 'model.json'))) if os.path.exists(os.path.join(WORK, 'model.json')) else None
         ctx['align'] = json.load(open(os.path.join(WORK, 'align.json'))) if os.path.exists(os.path.join(WORK, 'align.json')) else None
+        ctx['headers'] = json.load(open(os.path.join(WORK, 'headers.json'))) if os.path.exists(os.path.join(WORK, 'headers.json')) else None
         ctx['buildlog'] = open(os.path.join(WORK, 'coq_build.log')).read() if os.path.exists(os.path.join(WORK, 'coq_build.log')) else ''
         ctx['deps'] = coq_deps()
         return ctx
